@@ -72,3 +72,25 @@ Theorem C04_v2_wf_damaged_state : forall (H256 : bytes -> bytes) B, 0 < B ->
   Forall (v2_wf pl) (map2 (v2_listed H256 B k pl) files disk).
 Proof. exact v2_listed_all_wf. Qed.
 Print Assumptions C04_v2_wf_damaged_state.
+
+(* ---------------------------------------------------------------------------------------------- *)
+(* from the integers to the reported float: (matched / consumed) * 100  (Proofs/Percent.v)        *)
+(* ---------------------------------------------------------------------------------------------- *)
+(* IEEE model: Checker.iter_hashes ends with `self._result = (matched / consumed) * 100`.  CPython's
+   int / int is the correctly rounded binary64 value of the exact quotient, and `* 100` is one
+   binary64 multiplication; both round to nearest, ties to even.  `percent m c` is
+   rnd (rnd (m / c) * 100) over the reals, where rnd is Flocq's rounding to the binary64 format
+   (radix 2, FLT_exp (-1074) 53, ZnearestE): the standard characterisation "an IEEE operation returns
+   the rounding of the exact result" (no overflow is possible, all values lie in [0, 100]).
+   These theorems depend on the axioms of Coq's real numbers that Flocq uses (and on nothing else):
+   ClassicalDedekindReals.sig_forall_dec, ClassicalDedekindReals.sig_not_dec,
+   FunctionalExtensionality.functional_extensionality_dep, Classical_Prop.classic. *)
+From Coq Require Import ZArith Reals.
+From TF Require Import Proofs.Percent.
+
+(* at least one consumed byte did not match (matched < consumed) and at most 2^53 bytes were consumed:
+   the reported value is strictly below 100.0 *)
+Theorem C04_float_below_100 : forall m c : Z,
+  (0 <= m < c)%Z -> (c <= 2 ^ 53)%Z -> (percent m c < 100)%R.
+Proof. exact percent_damaged_lt_100. Qed.
+Print Assumptions C04_float_below_100.
